@@ -162,7 +162,7 @@ def acceptedReason (val : Bytes → TokVal) (toks : Week (Option DayToks)) (days
         | _ => none
   ((toks.toList.zip days.toList).filterMap day).head?.getD "C18.decode-changed"
 
-def stepDecode (yaml : Bool) (ins impl : List String) : Option String := do
+def stepDecode (yaml : Bool) (coarseErr : Bool) (ins impl : List String) : Option String := do
   let d ← runP pDecodeIn ins
   let tzOK : Bytes → Bool := fun n => (n == d.c.tz && d.tzOK) || (n == locName d.c.tz && d.tzOK)
   -- the configuration struct: from the tokens where they are known (the duration unmarshallers are
@@ -185,6 +185,8 @@ def stepDecode (yaml : Bool) (ins impl : List String) : Option String := do
         let rt := roundTripSame yaml tzOK w
         tabs (["ok", hexEncode w.loc] ++ showDays w.days ++
           [match bytes with | some b => hexEncode b | none => "unrenderable", showB rt])
+  -- through the HTTP handler only the status code of a rejection is visible
+  let model := if coarseErr && model.startsWith "err" then "err\t400" else model
   let obs ← parseDecodeObs impl
   let val := if yaml then yamlTokVal else jsonTokVal
   let spec :=
@@ -202,7 +204,8 @@ def stepDecode (yaml : Bool) (ins impl : List String) : Option String := do
   let spec := match spec with
     | some r => some r
     | none =>
-      if specDecodeOK d.parseOK d.tzOK d.c obs then none else
+      -- the monitor against the library's parse (not shipped with handler cases)
+      if coarseErr || specDecodeOK d.parseOK d.tzOK d.c obs then none else
       some (match obs with
         | .rejected => "C18.decode-rejects-allowed"
         | .accepted _ days same =>
@@ -348,8 +351,9 @@ def step (st : St) (line : String) : St × String :=
         | "C18.applied" => stepApplied ins impl
         | "C18.ctor" => stepCtor ins impl
         | "C18.validate" => stepValidate ins impl
-        | "C18.json" => stepDecode false ins impl
-        | "C18.yaml" => stepDecode true ins impl
+        | "C18.json" => stepDecode false false ins impl
+        | "C18.yaml" => stepDecode true false ins impl
+        | "C18.httpjson" => stepDecode false true ins impl
         | "C18.jsondur" => stepDurF false ins impl
         | "C18.yamldur" => stepDurF true ins impl
         | "C18.jsondurenc" => stepDurEnc jsonDurEncode ins impl
